@@ -80,6 +80,11 @@ def bind(params, args):
             return None
         if p.type == 'number':
             finite = v == v and v not in (float('inf'), float('-inf'))
+            if finite and isinstance(v, int):
+                try:
+                    float(v)
+                except OverflowError:
+                    finite = False      # a host integer beyond the float range is not a usable index, count or size
             if p.integer and (not finite or v != int(v)):
                 return None
             if p.gte is not None and not v >= p.gte:
